@@ -241,6 +241,23 @@ func scenarios(r *hlib.Rng) []In {
 			one(epoch(0)), one(moveLast(stProven)), one(status(0)), one(moveLast(stCandidate)), one(epoch(0)), one(moveLast(stInError)),
 			one(status(0)), one(epoch(0)), settleLast(), one(epoch(0)))
 	}
+	// size limit + certificate history: a certificate that goes InError, is replaced by a CUT replacement built after new
+	// blocks arrived, which goes InError as well; the second replacement is sent, and an epoch ticks while it is pending
+	for _, retry := range []bool{true, false} {
+		for _, keep := range []bool{true, false} {
+			hh := &hist{r: r}
+			in := In{Retry: retry, Hist: keep, Tag: "cut-double-inerror"}
+			for _, ss := range [][]Step{
+				one(hh.block(0, 1, 0)), one(epoch(0)), settleLast(),
+				one(hh.block(0, 2, 0)), one(hh.block(0, 2, 0)), one(hh.block(0, 1, 0)), one(epoch(300)), one(moveLast(stInError)),
+				one(hh.block(0, 2, 0)), one(hh.block(0, 1, 1)), one(status(300)), one(epoch(300)), one(moveLast(stInError)),
+				one(hh.block(0, 1, 0)), one(status(300)), one(epoch(300)), one(epoch(300)), one(status(300)), one(epoch(300)),
+				settleLast(), one(epoch(0)), settleLast(), one(epoch(0))} {
+				in.Steps = append(in.Steps, ss...)
+			}
+			out = append(out, in)
+		}
+	}
 	return out
 }
 
@@ -292,6 +309,7 @@ func walk(r *hlib.Rng, n int) In {
 		guess = in.Seeds[n-1].Status
 	}
 	maxes := []uint{0, 0, 0, 0, 1, 200, 400, 3100, 6000}
+	in.Hist = r.Bool()
 	for len(in.Steps) < n {
 		x := r.Intn(100)
 		switch {
